@@ -38,6 +38,13 @@ PRE_PLOT = PRE_ASM + (
            "  | Some got => leq (fun x y => s_eqb (fst x) (fst y) && leq feqa (snd x) (snd y)) got cur | None => false end.\n")
 
 
+PRE_DISP = ("From Coq Require Import ZArith NArith List Bool.\nImport ListNotations.\n"
+            "From RD Require Import Base Lib.Py Model.SeriesAsm.\nFrom RD.Gen.Default Require Names.\n"
+            "Fixpoint leqs (a b : list str) : bool := match a, b with [] , [] => true | x :: a', y :: b' => s_eqb x y && leqs a' b' | _, _ => false end.\n"
+            "Definition chkd (c : str * list str * list str) : bool := let '(order, decayed, shown) := c in\n"
+            "  match plot_display_all order decayed Names.names with OK got => leqs got shown | Raise _ => false end.\n")
+
+
 def plot_term(points, nuclides, ydata):
     ps = "[" + "; ".join("[" + "; ".join(f"({Q.cstr(k)}, {Q.fhex(float.fromhex(v))})" for k, v in p) + "]" for p in points) + "]"
     disp = "[" + "; ".join(Q.cstr(k) for k in nuclides) + "]"
@@ -100,7 +107,7 @@ def series_stream(rng, thorough, streams, viol, samples):
                       "scale": "linear", "tmax": float(rng.choice([2.0, 5.0, 40.0])).hex(), "npoints": 3, "explicit": None, "plot": True, "display": "all",
                       "order": "dataset", "yscale": "log", "ymin": float(0.0).hex(), "ymax": None, "xmin": float(0.0).hex()})
     impl = U.run_impl("impl_series.py", cases, timeout=6000)
-    bad, lin_terms, asm_terms, asm_cases, plot_terms, plot_cases = [], [], [], [], [], []
+    bad, lin_terms, asm_terms, asm_cases, plot_terms, plot_cases, disp_terms, disp_cases = [], [], [], [], [], [], [], []
     for c, r in zip(cases, impl):
         if "err" in r:
             if "ZeroDivision" in r["err"] or "divide" in r["err"]:
@@ -144,6 +151,9 @@ def series_stream(rng, thorough, streams, viol, samples):
             p = r["plot"]
             if sum(len(q) for q in p["points"]) <= 400 and len(p["ydata"]) == len(p["nuclides"]):
                 plot_terms.append(plot_term(p["points"], p["nuclides"], p["ydata"])); plot_cases.append(c)
+            if c["display"] == "all":
+                disp_terms.append(f"({Q.cstr(c['order'])}, [" + "; ".join(Q.cstr(n) for n in p["all_nuclides"]) + "], [" + "; ".join(Q.cstr(n) for n in p["nuclides"]) + "])")
+                disp_cases.append(c)
             if p["ylabel"] != ylabel(c["kind"]) or p["xunits"] != c["tunit"]:
                 bad.append((c, f"plot labels {p['ylabel']!r} / {p['xunits']!r} do not name the requested unit"))
             want_n = p["dataset_order"] if c["order"] == "dataset" else p["all_nuclides"]
@@ -180,10 +190,11 @@ def series_stream(rng, thorough, streams, viol, samples):
     badl, errs = Q.run_cases("linspace", PRE, "float * float * nat * list float", lin_terms, "chk", shard=100)
     bada, errsa = Q.run_cases("assemble", PRE_ASM, "list (list (str * float)) * list (str * list float)", asm_terms, "chka", shard=40)
     badp, errsp = Q.run_cases("plotcurves", PRE_PLOT, "list (list (str * float)) * list str * list (str * list float)", plot_terms, "chkp", shard=40)
-    errs = errs + errsa + errsp
+    badd, errsd = Q.run_cases("plotdisplay", PRE_DISP, "str * list str * list str", disp_terms, "chkd", shard=40)
+    errs = errs + errsa + errsp + errsd
     kinds_seen = sorted({c["kind"] for c in cases})
     streams["series"] = {"cases": len(cases), "kinds": len(kinds_seen), "linear_grids_bitexact_in_coq": len(lin_terms), "grid_model_disagrees": len(badl),
-                         "impl_property_failures": len(bad), "assembly_model_in_coq": len(asm_terms), "assembly_model_disagrees": len(bada), "plot_curves_model_in_coq": len(plot_terms), "plot_curves_model_disagrees": len(badp), "coq_errors": len(errs), "hp": sum(1 for c in cases if c["cls"] == "InventoryHP"),
+                         "impl_property_failures": len(bad), "assembly_model_in_coq": len(asm_terms), "assembly_model_disagrees": len(bada), "plot_curves_model_in_coq": len(plot_terms), "plot_curves_model_disagrees": len(badp), "plot_display_model_in_coq": len(disp_terms), "plot_display_model_disagrees": len(badd), "coq_errors": len(errs), "hp": sum(1 for c in cases if c["cls"] == "InventoryHP"),
                          "what": "decay_time_series / _pandas / plot (captured decay_graph arguments) for the 47 read-out kinds x {linear, log}: values bit-identical "
                                  "to separate decays at each time, columns = decayed inventory, grid (linear bit-exact vs the PrimFloat model of linspace; log: exponents on that grid, power within 2 ulp), "
                                  "explicit times verbatim, labels, curve order, y-limits; the lines actually drawn on the axes (labels, x, y bit-identical); "
@@ -207,6 +218,11 @@ def series_stream(rng, thorough, streams, viol, samples):
             viol.append({"name": f"assemble-model-{i}", "found_input": True, "key": f"assemble-model:{asm_cases[i]['kind']}",
                          "payload": {"fails": "the columns returned by decay_time_series differ from the proved assembly (Model/SeriesAsm.v assemble) of the separate decays' read-outs",
                                      "input": asm_cases[i], "entry": "decay_time_series"}})
+    for i in badd[:2]:
+        if not any(disp_cases[i] is c for c, _ in bad):
+            viol.append({"name": f"plot-display-model-{i}", "found_input": True, "key": f"plot-display-model:{disp_cases[i]['order']}",
+                         "payload": {"fails": "the nuclides / order handed to decay_graph for display='all' differ from the proved model (Model/SeriesAsm.v plot_display_all)",
+                                     "input": disp_cases[i], "entry": "plot"}})
     for i in badp[:2]:
         if not any(plot_cases[i] is c for c, _ in bad):
             viol.append({"name": f"plot-curves-model-{i}", "found_input": True, "key": f"plot-curves-model:{plot_cases[i]['kind']}",
